@@ -28,7 +28,7 @@ inductive Err
   | tooSmall | badMagic | badVersion | hdrOverrun | offsOverrun | offsetOOB | contOOB | badType
   | isRunOverrun | tooMany | offsIncomplete | badCookie
   | opShort | opBatchTooBig | opTruncated | opUnknown | opChecksum
-  | iterOffset | iterSize | noData
+  | iterOffset | iterSize | noData | illFormed
   deriving DecidableEq, Repr, Inhabited
 
 def Err.name : Err → String
@@ -39,6 +39,7 @@ def Err.name : Err → String
   | .opShort => "op-short" | .opBatchTooBig => "op-batch-too-big" | .opTruncated => "op-truncated"
   | .opUnknown => "op-unknown" | .opChecksum => "op-checksum"
   | .iterOffset => "iter-offset" | .iterSize => "iter-size" | .noData => "no-data"
+  | .illFormed => "ill-formed"
 
 /-- Outcome of a decoder: a value, a Go `error`, or a Go panic / out-of-bounds read at a named
 site.  Never a default value. -/
@@ -46,7 +47,7 @@ inductive Res (α : Type)
   | ok (a : α)
   | err (e : Err)
   | panic (site : String)
-  deriving Repr
+  deriving Repr, DecidableEq
 
 namespace Res
 def bind {α β : Type} (r : Res α) (f : α → Res β) : Res β :=
